@@ -25,13 +25,13 @@ type zzOp struct {
 // zzMemDS is the datastore contract: every direct Put/Delete and every Batch.Commit is atomic and is
 // recorded as one entry of the commit log.
 type zzMemDS struct {
-	m       map[string][]byte
-	log     [][]zzOp
-	writes  int // direct writes and commits attempted
+	m        map[string][]byte
+	log      [][]zzOp
+	writes   int // direct writes and commits attempted
 	failFrom int // the failFrom-th .. (failFrom+failN-1)-th write attempts fail (1-based); 0 = never
-	failN   int
-	gates   bool
-	reads   int
+	failN    int
+	gates    bool
+	reads    int
 }
 
 var zzErrWrite = errors.New("zz: datastore write failure")
